@@ -122,6 +122,9 @@ fn main() {
             let data = PathBuf::from(args.get(3).expect("data"));
             std::process::exit(props::c19::helper_gentle(&out, &data, args.iter().any(|a| a == "--drop-privileges")));
         }
+        "helper-compile-text" => {
+            std::process::exit(props::c05::helper_compile_text(args.get(2).map(|s| s.as_str()).unwrap_or("cl23")));
+        }
         "helper-compile" => {
             let src = PathBuf::from(args.get(2).expect("src"));
             let out = PathBuf::from(args.get(3).expect("out"));
